@@ -23,7 +23,14 @@ func parseFileTypeBox(b *box) (ftyp FileTypeBox, err error) {
 	if !b.isType(typeFtyp) {
 		return ftyp, ErrWrongBoxType
 	}
-	buf, err := b.Peek(b.remain)
+	// Only the major brand, the minor version and the first maxBrandCount
+	// compatible brands are used: a box with more brands than the buffer holds
+	// is still a ftyp box.
+	n := b.remain
+	if n > 8+4*maxBrandCount {
+		n = 8 + 4*maxBrandCount
+	}
+	buf, err := b.Peek(n)
 	if err != nil {
 		return ftyp, err
 	}
